@@ -623,6 +623,7 @@ def step (s : State) (w : List String) : State × String :=
   | "key" :: _ => (s, stepKey w)
   | "ver" :: _ => (s, stepVer w)
   | "pipe" :: _ => stepPipe s w
+  | "l3" :: _ => (s, "unmodelled")
   | _ => (s, "bad-op")
 
 end Driver.C03
